@@ -44,6 +44,7 @@ class _End:
         self.fail_after: Optional[int] = None  # sendall calls that still succeed
         self.fail_exc = BrokenPipeError
         self.sent = bytearray()  # everything successfully written by this end
+        self.chunk: Optional[int] = None  # max bytes a read WITHOUT MSG_WAITALL returns (segment size)
         self._hash = None
 
     # --- identity ---------------------------------------------------------
@@ -94,6 +95,8 @@ class _End:
             have = len(self.inbuf)
             if have >= n or (have > 0 and not waitall) or self.fin_in:
                 k = min(n, have)
+                if not waitall and self.chunk:
+                    k = min(k, self.chunk)
                 out = bytes(self.inbuf[:k])
                 del self.inbuf[:k]
                 self.net.ev("recv", self, n, out)
